@@ -1126,6 +1126,7 @@ def add_time_after_dose(model: Model):
         df = temp.dataset
 
     df['_DOSEID'] = get_doseid(temp)
+    df['_POS'] = np.arange(len(df))
 
     # Sort in case DOSEIDs are non-increasing
     df = (
@@ -1136,12 +1137,13 @@ def add_time_after_dose(model: Model):
 
     df['TAD'] = df.groupby([idlab, '_DOSEID'])['_NEWTIME'].diff().fillna(0.0)
     df['TAD'] = df.groupby([idlab, '_DOSEID'])['TAD'].cumsum()
+    df = df.sort_values(by='_POS', kind='stable').reset_index(drop=True)
 
     if addl:
         df = df[~df['EXPANDED']].reset_index(drop=True)
         df.drop(columns=['EXPANDED'], inplace=True)
 
-    df.drop(columns=['_NEWTIME', '_DOSEID'], inplace=True)
+    df.drop(columns=['_NEWTIME', '_DOSEID', '_POS'], inplace=True)
 
     # FIXME: Temp workaround, should be canonicalized in Model.replace
     di = update_datainfo(model.datainfo, df)
